@@ -384,7 +384,7 @@ pub fn edges_for(prop: Prop, tier: Tier, r: &dyn Runner, st: &St) -> Vec<Edge> {
         Prop::C09 => { lazies(r, tier, st, &mut v); movers(&mut v); }
         Prop::C07 => { forgets(r, tier, st, &mut v); movers(&mut v); }
         Prop::C13 => { handles(r, tier, st, &mut v); movers(&mut v); }
-        Prop::C18 => { capacity(r, tier, st, bounds(prop, tier).lmax, &mut v); elementwise(r, tier, st, &mut v); ranges(r, tier, st, true, &mut v); clones(r, tier, st, &mut v); }
+        Prop::C18 => { rawparts(r, tier, st, &mut v); capacity(r, tier, st, bounds(prop, tier).lmax, &mut v); elementwise(r, tier, st, &mut v); ranges(r, tier, st, true, &mut v); clones(r, tier, st, &mut v); }
         Prop::C06 => {
             elementwise(r, tier, st, &mut v); ranges(r, tier, st, true, &mut v); clones(r, tier, st, &mut v); lazies(r, tier, st, &mut v);
             // a splice that exceeds a fixed capacity panics by contract; a second (injected) panic while it unwinds would abort the
@@ -425,6 +425,7 @@ pub fn edges_for(prop: Prop, tier: Tier, r: &dyn Runner, st: &St) -> Vec<Edge> {
 pub fn reports(prop: Prop, class: Class, kind: &str, e: &Edge) -> bool {
     let _ = e;
     if class == Class::Machinery { return true; }
+    if std::env::var("MC_ALL_CLASSES").is_ok() { return true; } // development aid: see every oracle's failures in this run
     match prop {
         Prop::C09 => matches!(class, Class::Vec | Class::Type | Class::Own),
         Prop::C19 => matches!(class, Class::Vec | Class::Type | Class::Iter | Class::Cap | Class::Alloc),
